@@ -44,5 +44,25 @@ let () =
     let peses = List.map (fun (t, id, n) -> let (a, b) = take n !rest in rest := b; ((t, id), List.map snd a)) groups in
     let flat = List.concat (List.map pes_units peses) in
     let inclass = (if auto then mux_ok_auto s m else mux_ok s m) && List.for_all pes_ok peses && flat = evs in
+    if not inclass && Sys.getenv_opt "TTX_DEBUG" <> None then begin
+      let why = Buffer.create 100 in
+      if not (List.for_all pes_ok peses) then Buffer.add_string why "pes_ok ";
+      if flat <> evs then Buffer.add_string why "flat ";
+      if List.length insts <> List.length ims then Buffer.add_string why "len ";
+      List.iter (fun (_, u) -> if not (if auto then unselected_ok u else (dead_ok mag pn u || neutral_unit mag u)) then Buffer.add_string why "pre ") pre;
+      List.iteri (fun k (i, im) ->
+        if not (is_our_header mag pn i.i_cs im.im_hdr) then Buffer.add_string why (Printf.sprintf "hdr%d " k);
+        List.iter (fun (row, sp) -> if not (rowspec_ok sp) then Buffer.add_string why (Printf.sprintf "rowspec%d " k)) i.i_rows;
+        if not (body_ok mag pn i.i_rows im.im_body) then begin
+          Buffer.add_string why (Printf.sprintf "body%d " k);
+          let rows = ref i.i_rows in
+          List.iter (fun (_, (f, u)) ->
+            if f then (match !rows with (row, sp) :: rs -> (if not (is_our_row mag row (row_cells sp) u) then Buffer.add_string why "ROW "); rows := rs | [] -> Buffer.add_string why "NOROW ")
+            else if not (benign mag pn u || neutral_unit mag u) then Buffer.add_string why (Printf.sprintf "BENIGN(id=%d) " (int_of_n (fst u)))) im.im_body end;
+        (match im.im_tail with Some ((_, tu), dead) ->
+           if not (is_terminator mag pn tu) then Buffer.add_string why "term ";
+           List.iter (fun (_, u) -> if not (dead_ok mag pn u || neutral_unit mag u) then Buffer.add_string why "dead ") dead
+         | None -> ())) (List.combine insts ims);
+      prerr_endline ("NS because: " ^ Buffer.contents why) end;
     if not inclass then Buffer.add_string b "NS 0 "
     else (pint 0; plist ptcue (cues_of s (zero_or (tmin peses None)) (zero_or (tmax peses None)))))
